@@ -24,19 +24,30 @@ mod verif_kani_resp_parser {
     fn fmt_write_stub(_out: &mut dyn core::fmt::Write, _args: core::fmt::Arguments<'_>) -> core::fmt::Result { Ok(()) }
     fn fmt_pad_stub<'a>(_f: &mut core::fmt::Formatter<'a>, _s: &str) -> core::fmt::Result where 'a: 'a { Ok(()) }
 
+    // the dispatcher of RespParser::parse restricted to the four non-recursive frame types
+    fn parse_scalar(input: &[u8]) -> Option<Result<(RespValue, usize), String>> {
+        match input[0] {
+            b'+' => Some(RespParser::parse_simple_string(input)),
+            b'-' => Some(RespParser::parse_error(input)),
+            b':' => Some(RespParser::parse_integer(input)),
+            b'$' => Some(RespParser::parse_bulk_string(input)),
+            _ => None,
+        }
+    }
+
     // @harness: h_parser_probe
     // @bound: probe
     // @tier: quick
     // @complete: false
     #[kani::proof]
-    #[kani::unwind(7)]
+    #[kani::unwind(8)]
     #[kani::stub(alloc::fmt::format, fmt_format_stub)]
     #[kani::stub(core::fmt::write, fmt_write_stub)]
     #[kani::stub(core::fmt::Formatter::pad, fmt_pad_stub)]
     fn h_parser_probe() {
-        let buf = any_input::<5>();
-        if let Ok((_, n)) = RespParser::parse(&buf[..]) {
-            assert!(0 < n && n <= 5);
+        let buf = any_input::<6>();
+        if let Some(Ok((_, n))) = parse_scalar(&buf[..]) {
+            assert!(0 < n && n <= 6);
         }
     }
 }
